@@ -2032,7 +2032,9 @@ def check_C05(replay=None):
             s["src"] = s["src"][:200]
             chk.samples.append(s)
         os.remove(out)
-    _lex_run(chk, [("chars%d" % k, ["--mode", "chars", "--len", 4 if thorough else 3, "--stride", 4, "--phase", k, "--stack", k % 2]) for k in range(4)])
+    _lex_run(chk, [("chars%d" % k, ["--mode", "chars", "--len", 4 if thorough else 3, "--stride", 4, "--phase", k, "--stack", k % 2]) for k in range(4)]
+                  # every pair of the lexer's boundary spellings (x-8000, x-8001, x10000, #65535, #65536, 0x-2, r8, "open ...): totality at the edges of each literal form
+                  + [("lits%d" % k, ["--mode", "chunks", "--len", 2, "--stride", 2, "--phase", k, "--stack", k]) for k in range(2)])
     # inputs whose SIZE is the point, given to the real binary (a stack overflow aborts the process: only a separate process can observe that)
     vlib.build(need_cli=True)
     d = _wpath("c05_cli")
